@@ -335,6 +335,13 @@ func genMatch(c *rig.Ctx, raw bool) MatchCase {
 		for j, k := 0, r.Intn(4); j < k; j++ {
 			p = append(p, mg.RuleJSON(mg.Rule(r, raw)))
 		}
+		if len(p) > 0 && r.Intn(2) == 0 {
+			// aim the request at one of the rules generated so far
+			var w mg.RuleWire
+			b, _ := json.Marshal(p[r.Intn(len(p))])
+			json.Unmarshal(b, &w)
+			mc.Attrs = mg.AttrsFor(r, w.Rule(), raw).JSON()
+		}
 		mc.Policies = append(mc.Policies, p)
 		mc.Cfgs = append(mc.Cfgs, PolicyCfg{FC: rig.Hex(rig.Pick(r, []string{"", "", "a", "system-default", "limit-1"})),
 			Subset: rig.HexList(rig.Pick(r, [][]string{{}, {}, {"e1"}, {"e1", "e2"}})), LogMode: rig.Hex(rig.Pick(r, []string{"", "on", "off", "ON", "x"}))})
@@ -384,7 +391,7 @@ func main() {
 			runAny(c, env.Case, true)
 		}
 		nField := c.Budget(30000, 1000000)
-		for i := 0; i < nField && c.NFailures() < 5; i++ {
+		for i := 0; i < nField && !c.Stop(); i++ {
 			fc := genField(c, i%4 == 3)
 			cls := mg.ListClass(unhex(fc.Rules))
 			c.Case(rig.Canon(fc), cls != "empty" && cls != "star", "field:"+fc.Field+":"+cls, func() interface{} { return readable(fc) })
@@ -393,7 +400,7 @@ func main() {
 			}
 		}
 		nMatch := c.Budget(5000, 150000)
-		for i := 0; i < nMatch && c.NFailures() < 5; i++ {
+		for i := 0; i < nMatch && !c.Stop(); i++ {
 			mc := genMatch(c, i%4 == 3)
 			nr := 0
 			for _, p := range mc.Policies {
